@@ -698,3 +698,134 @@ Proof.
     + destruct REST as [A [B C]]. split; [reflexivity|]. split; [|split]; auto.
     + right. destruct REST as [[]|REST]. exact REST.
 Qed.
+
+(* ------------------------------------------------------------------ skip_list *)
+Lemma skip_raw_none r : skip_raw skip_none r = r.
+Proof. destruct r; reflexivity. Qed.
+
+Lemma load_dir_skip_none r : load_dir_skip skip_none r = load_dir r.
+Proof. unfold load_dir_skip. rewrite skip_raw_none. reflexivity. Qed.
+
+Lemma opt_skip_Some {A} b (o : option A) x : opt_skip b o = Some x -> b = false /\ o = Some x.
+Proof. destruct b; cbn; [discriminate | auto]. Qed.
+
+(* what the skipping loader sees exists in the directory *)
+Lemma file_exists_skip s r fk t i : file_exists (skip_raw s r) fk t i -> file_exists r fk t i.
+Proof.
+  intros [l [files [E I]]]. cbn in E. apply opt_skip_Some in E. destruct E as [_ E]. exists l, files. auto.
+Qed.
+
+Lemma match_file_exists_skip s r t p : match_file_exists (skip_raw s r) t p -> match_file_exists r t p.
+Proof.
+  intros [l [files [E I]]]. cbn in E. apply opt_skip_Some in E. destruct E as [_ E]. exists l, files. auto.
+Qed.
+
+Lemma collides_skip s r : collides (skip_raw s r) -> collides r.
+Proof.
+  intros [rows [p [E I]]]. cbn in E. apply opt_skip_Some in E. destruct E as [_ E]. exists rows, p. auto.
+Qed.
+
+(* a skipped part is absent from the loaded dataset *)
+Record skipped_absent (s : skipset) (d : dataset) : Prop := {
+  sa_rigs : sk_rigs s = true -> d_rigs d = None;
+  sa_traj : sk_traj s = true -> d_traj d = None;
+  sa_rec : forall k, sk_rec s k = true -> d_records d k = None;
+  sa_feat : forall fk, sk_feat s fk = true -> d_feat d fk = None;
+  sa_matches : sk_matches s = true -> d_matches d = None;
+  sa_points : sk_points s = true -> d_points d = None;
+  sa_obs : sk_obs s = true -> d_obs d = None;
+}.
+
+Lemma skip_absent s r d : load_dir_skip s r = Ok d -> skipped_absent s d.
+Proof.
+  intros H. destruct (load_ok_inv _ _ H) as [_ [S V]]. constructor.
+  - intros E. rewrite (ss_rigs _ _ S). cbn. rewrite E. reflexivity.
+  - intros E. rewrite (ss_traj _ _ S). cbn. rewrite E. reflexivity.
+  - intros k E. rewrite (ss_records _ _ S). cbn. rewrite E. reflexivity.
+  - intros fk E. destruct V as [[_ R]|[_ N]]; [|apply N]. rewrite (rs_feat _ _ R). cbn. rewrite E. reflexivity.
+  - intros E. destruct V as [[_ R]|[_ N]]; [|apply N]. rewrite (rs_matches _ _ R). cbn. rewrite E. reflexivity.
+  - intros E. destruct V as [[_ R]|[_ N]]; [|apply N]. rewrite (rs_points _ _ R). cbn. rewrite E. reflexivity.
+  - intros E. destruct V as [[_ R]|[_ N]]; [|apply N]. rewrite (rs_obs _ _ R). cbn. rewrite E. reflexivity.
+Qed.
+
+Lemma load_traj_norigs sids rids rows :
+  load_traj (sids ++ []) rows = List.filter (fun p => memb (snd p) sids) (load_traj (sids ++ rids) rows).
+Proof.
+  rewrite app_nil_r. unfold load_traj. induction rows as [|a l IH]; [reflexivity|].
+  cbn. rewrite memb_app. destruct (memb (snd a) sids) eqn:E; cbn.
+  - rewrite E. f_equal. exact IH.
+  - destruct (memb (snd a) rids); cbn; [rewrite E|]; exact IH.
+Qed.
+
+(* WHAT SKIPPING DOES NOT CHANGE: every part that is not skipped is loaded exactly as without a skip list, with one
+   dependency — when the rigs are skipped, the trajectory entries of rigs go (rig ids are no devices any more) *)
+Record skip_frame (s : skipset) (r : rawdir) (d d0 : dataset) : Prop := {
+  sf_version : d_version d = d_version d0;
+  sf_sensors : d_sensors d = d_sensors d0;
+  sf_rigs : sk_rigs s = false -> d_rigs d = d_rigs d0;
+  sf_records : forall k, sk_rec s k = false -> d_records d k = d_records d0 k;
+  sf_traj : sk_traj s = false -> sk_rigs s = false \/ r_rigs r = None -> d_traj d = d_traj d0;
+  sf_traj_norigs : sk_traj s = false -> sk_rigs s = true ->
+    d_traj d = option_map (List.filter (fun p => memb (snd p) (sensor_ids d0))) (d_traj d0);
+  sf_feat : sk_rec s RCamera = false -> forall fk, sk_feat s fk = false -> d_feat d fk = d_feat d0 fk;
+  sf_matches : sk_rec s RCamera = false -> sk_matches s = false -> d_matches d = d_matches d0;
+  sf_points : sk_points s = false -> d_points d = d_points d0;
+  sf_obs : sk_rec s RCamera = false -> sk_feat s FKeypoints = false -> sk_obs s = false -> d_obs d = d_obs d0;
+}.
+
+Lemma skip_frame_holds s r d d0 : load_dir_skip s r = Ok d -> load_dir r = Ok d0 -> skip_frame s r d d0.
+Proof.
+  intros H H0.
+  destruct (load_ok_inv _ _ H) as [[_ [V _]] [S X]]. destruct (load_ok_inv _ _ H0) as [[_ [V0 _]] [S0 X0]].
+  cbn in V.
+  assert (EV : d_version d = d_version d0) by congruence.
+  assert (ES : d_sensors d = d_sensors d0) by (rewrite (ss_sensors _ _ S), (ss_sensors _ _ S0); reflexivity).
+  assert (EI : sensor_ids d = sensor_ids d0) by (unfold sensor_ids; rewrite ES; reflexivity).
+  assert (ER : sk_rigs s = false -> d_rigs d = d_rigs d0).
+  { intros E. rewrite (ss_rigs _ _ S), (ss_rigs _ _ S0). cbn. rewrite E, EI. reflexivity. }
+  assert (ERec : forall k, sk_rec s k = false -> d_records d k = d_records d0 k).
+  { intros k E. rewrite (ss_records _ _ S), (ss_records _ _ S0). cbn. rewrite E, ES. reflexivity. }
+  assert (EIm : sk_rec s RCamera = false -> images_of d = images_of d0).
+  { intros E. unfold images_of. rewrite (ERec RCamera E). reflexivity. }
+  assert (EF : sk_rec s RCamera = false -> forall fk, sk_feat s fk = false -> d_feat d fk = d_feat d0 fk).
+  { intros EC fk E. destruct X as [[C R]|[NC N]], X0 as [[C0 R0]|[NC0 N0]]; try congruence.
+    - rewrite (rs_feat _ _ R), (rs_feat _ _ R0). cbn. rewrite E, (EIm EC). reflexivity.
+    - rewrite (proj1 N), (proj1 N0). reflexivity. }
+  constructor; auto.
+  - (* trajectories, rigs loaded alike *)
+    intros E G. rewrite (ss_traj _ _ S), (ss_traj _ _ S0). cbn. rewrite E. cbn [opt_skip].
+    assert (EG : rig_ids d = rig_ids d0).
+    { unfold rig_ids. destruct G as [G|G]; [rewrite (ER G); reflexivity|].
+      rewrite (ss_rigs _ _ S), (ss_rigs _ _ S0). cbn. rewrite G. destruct (sk_rigs s); reflexivity. }
+    rewrite EI, EG. reflexivity.
+  - (* trajectories, rigs skipped *)
+    intros E G. rewrite (ss_traj _ _ S), (ss_traj _ _ S0). cbn. rewrite E. cbn [opt_skip].
+    assert (EG : rig_ids d = []).
+    { unfold rig_ids. rewrite (ss_rigs _ _ S). cbn. rewrite G. reflexivity. }
+    rewrite EG, EI. destruct (r_traj r) as [rows|]; [|reflexivity]. cbn. f_equal. apply load_traj_norigs.
+  - intros EC E. destruct X as [[C R]|[NC N]], X0 as [[C0 R0]|[NC0 N0]]; try congruence.
+    + rewrite (rs_matches _ _ R), (rs_matches _ _ R0). cbn. rewrite E, (EIm EC). reflexivity.
+    + destruct N as [_ [N _]], N0 as [_ [N0 _]]. congruence.
+  - intros E. destruct X as [[C R]|[NC N]], X0 as [[C0 R0]|[NC0 N0]]; try congruence.
+    + rewrite (rs_points _ _ R), (rs_points _ _ R0). cbn. rewrite E. reflexivity.
+    + destruct N as [_ [_ [N _]]], N0 as [_ [_ [N0 _]]]. congruence.
+  - intros EC EK E. destruct X as [[C R]|[NC N]], X0 as [[C0 R0]|[NC0 N0]]; try congruence.
+    + rewrite (rs_obs _ _ R), (rs_obs _ _ R0). cbn. rewrite E, (EF EC FKeypoints EK). reflexivity.
+    + destruct N as [_ [_ [_ N]]], N0 as [_ [_ [_ N0]]]. congruence.
+Qed.
+
+(* skipping introduces no refusal except through the loader's own assertions; a collision or a version refusal
+   can only disappear *)
+Lemma skip_ok s r d0 :
+  load_dir r = Ok d0 -> (d_version d0 = Tload.current_version -> asserts_ok (skip_raw s r)) ->
+  exists d, load_dir_skip s r = Ok d.
+Proof.
+  intros H0 A. pose proof (load_outcome r) as O0. rewrite H0 in O0.
+  destruct O0 as [HS [[q [HV [HQ HN]]] [NC _]]].
+  unfold load_dir_skip. pose proof (load_outcome (skip_raw s r)) as O.
+  destruct (load_dir (skip_raw s r)) as [d|[]]; [eauto| | | |]; exfalso; cbn [skip_raw r_version r_has_sensors] in O.
+  - destruct O as [O|[v [q' [E [_ [_ [_ [EC NA]]]]]]]]; [congruence|]. apply NA, A. congruence.
+  - destruct O as [_ O]. congruence.
+  - destruct O as [_ [v [E [O|[q' [O1 O2]]]]]]; congruence.
+  - destruct O as [_ [_ C]]. exact (NC (collides_skip s r C)).
+Qed.
